@@ -192,3 +192,46 @@ def gen_pattern_for(rng, paths):
     if pat.startswith(b"-"):
         pat = b"./" + pat
     return pat
+
+
+# ----------------------------------------------------------------- windows syntax
+WTOKS = [b"a", b"B", b"Ab", b".", b"..", b"/", b"\\", b"a.C", b"x", b"./", b"..\\", b"//", b"\\\\", b"/./", b"\\..\\", b"c:", b"C:\\", b"?", b":"]
+WBASES = [b"", b"C:\\r", b"c:/R/a", b"\\\\srv\\share", b"//./C:/", b"\\\\?\\", b"/r", b"r", b"C:", b"\\"]
+
+
+def gen_wstr(rng, wild, maxtok=6):
+    toks = list(WTOKS) + ([b"*", b"**", b"?", b"*", b"*.c", b"**\\", b"?*"] if wild else [])
+    return b"".join(rng.choice(toks) for _ in range(rng.randint(0, maxtok)))
+
+
+def gen_witer_case(rng):
+    a = gen_wstr(rng, False, 5)
+    b = gen_wstr(rng, False, 4) if rng.random() < 0.6 else b""
+    if rng.random() < 0.4:
+        a = rng.choice([b"C:\\", b"c:", b"\\\\", b"//?/", b"\\\\.\\", b"/", b"\\", b"//x"]) + a
+    return [a, b, b"w"]
+
+
+def gen_wpm_case(rng):
+    pattern = gen_wstr(rng, True)
+    base = rng.choice(WBASES)
+    r = rng.random()
+    if r < 0.5:
+        path = b""
+        for ch in pattern:
+            c = bytes([ch])
+            if c == b"*":
+                path += rng.choice([b"", b"a", b"Ab", b"b\\a", b"/", b"a.c"])
+            elif c == b"?":
+                path += rng.choice([b"a", b"B", b"\\", b"."])
+            else:
+                path += rng.choice([c, c.swapcase(), c])
+        if rng.random() < 0.4:
+            path = rng.choice([b"a\\", b"C:\\r\\", b"B/a/", b".\\", b"..\\"]) + path
+        if rng.random() < 0.4:
+            path += rng.choice([b"\\a", b"/A.c", b"\\b\\a.c", b"\\"])
+    elif r < 0.6:
+        path = pattern
+    else:
+        path = gen_wstr(rng, False)
+    return [pattern, path, base, b"d" if rng.random() < 0.3 else b"f", b"w"]
